@@ -11,6 +11,7 @@ import (
 )
 
 func init() {
+	intrinsics["github.com/cosmos/cosmos-sdk/codec/types.NewAnyWithValue"] = newAnyWithValue
 	intrinsicByPattern = func(key string) intrinsic {
 		if !strings.Contains(key, "cosmos-sdk/codec.") {
 			return nil
@@ -279,3 +280,29 @@ func (fr *frame) unflatten(flat string, t types.Type, st *State) string {
 }
 
 func (g *Gen) codecFnsSort(sort string, t types.Type, lp bool) (string, string, string) { return g.codecFns(t, lp) }
+
+// newAnyWithValue: codectypes.NewAnyWithValue(&msg) packs the encoding of msg into a fresh, immutable Any cell:
+// anyBytes(result) == mar(msg). It fails only for a nil interface (read from codec/types/any.go).
+func newAnyWithValue(fr *frame, com *ssa.CallCommon, args []Val, st *State, reach string) Val {
+	ft := fr.ft
+	g := ft.g
+	ft.assumed["codectypes.NewAnyWithValue (E-codec intrinsic)"] = true
+	rs := com.Signature().Results()
+	msg := args[0]
+	elem := dynElem(msg)
+	sf := g.db.Funcs["anyBytes"]
+	if elem == nil || msg.DynT == nil || sf == nil {
+		ft.unsupported("NewAnyWithValue of a value with unknown dynamic type in %s", fr.fn)
+		return fr.havocResult(rs, st)
+	}
+	g.declareSpecFunc(sf)
+	mar, _, _ := g.codecFns(elem, false)
+	ptr := g.unboxIface(fr.asValue(msg, st), msg.DynT)
+	ft.addObl(fr, "nil", fr.tag+"NewAnyWithValue", reach, "(not (= "+ptr+" 0))", "NewAnyWithValue of nil message", nil, nil)
+	es := g.reg.SortOf(elem)
+	h := ft.stateGet(st, "H|"+es, "(Array Int "+es+")")
+	flat := g.flattenWith("(select "+h+" "+ptr+")", elem, func(srt string) string { return ft.stateGet(st, "H|"+srt, "(Array Int "+srt+")") })
+	ref := fr.newRef(st)
+	ft.fact("(= (sf_anyBytes " + ref + ") (" + mar + " " + flat + "))")
+	return Val{Ty: rs, Tuple: []Val{{T: ref, Ty: rs.At(0).Type()}, {T: "(mk_Iface 0 0)", Ty: rs.At(1).Type()}}}
+}
